@@ -12,6 +12,30 @@ fn main() {
         Some(pos) => &text[..pos],
         None => &text[..],
     };
+    // hook K6 swaps the clock types behind feature `verif`: this crate supplies its own clock
+    // through the `std` shim, so take the guard-off variant (drop `#[cfg(feature = "verif")]`
+    // items, keep `#[cfg(not(feature = "verif"))]` ones without the attribute)
+    let mut cleaned = String::new();
+    let mut skipping = false;
+    for line in body.lines() {
+        let t = line.trim();
+        if skipping {
+            if t.ends_with(';') {
+                skipping = false;
+            }
+            continue;
+        }
+        if t == "#[cfg(feature = \"verif\")]" {
+            skipping = true;
+            continue;
+        }
+        if t == "#[cfg(not(feature = \"verif\"))]" {
+            continue;
+        }
+        cleaned.push_str(line);
+        cleaned.push('\n');
+    }
+    let body = cleaned.as_str();
     // the file must stay self-contained: only std imports
     for line in body.lines() {
         let l = line.trim_start();
